@@ -39,9 +39,17 @@ def config(tier):
 
 def gen_case(rng, index, tier):
     vols = rng.choice([['v1'], ['v1', 'v2']])
+    # v2 may have no usable trash dir at all: entries there reach the trash
+    # only through the cross-device home fallback (a copy that can fail)
+    v2_unusable = 'v2' in vols and rng.random() < 0.5
+    tops = {'v1': rng.choice(['sticky', 'absent'])}
+    alts = {}
+    if v2_unusable:
+        tops['v2'] = 'file'
+        alts['v2'] = 'file'
     L = gen.make_layout(rng, volumes=vols, home_own_volume=False, xdg='unset',
-                        top_states={'v1': rng.choice(['sticky', 'absent'])},
-                        alt_states={}, trash_volumes_env=rng.random() < 0.5)
+                        top_states=tops, alt_states=alts,
+                        trash_volumes_env=rng.random() < 0.5)
     dirs = [L.home + '/w', L.home + '/w/sub', 'v1/w', 'v1/w/deep/er']
     if 'v2' in vols:
         dirs.append('v2/w')
@@ -55,12 +63,16 @@ def gen_case(rng, index, tier):
         if any(s['dir'] == d and s['name'] == nm for s in slots):
             nm = nm + str(i)
         kind = rng.choice(['file', 'file', 'tree', 'empty', 'link_dangling'])
+        if v2_unusable and d.startswith('v2/') and rng.random() < 0.3:
+            kind = 'tree_fifo'      # cannot be copied across volumes
         slots.append({'dir': d, 'name': nm, 'kind': kind})
         L.add(gen.entry_nodes(rng, d + '/' + nm, kind, 'c%ds%dg0' % (index, i)))
     # entries already in the trash when the history starts: a volume may hold
     # BOTH $topdir/.Trash/$uid and $topdir/.Trash-$uid
     pre = []
     for v in vols:
+        if v == 'v2' and v2_unusable:
+            continue
         tds = [v + '/.Trash-%d' % L.uid]
         if L.top_state.get(v) == 'sticky':
             tds.append(v + '/.Trash/%d' % L.uid)
@@ -79,14 +91,19 @@ def gen_case(rng, index, tier):
     for k in range(nsteps):
         r = rng.random()
         if r < 0.05:
-            steps.append({'op': 'mk-top', 'vol': rng.choice(vols)})
+            steps.append({'op': 'mk-top', 'vol': rng.choice(
+                [v for v in vols if not (v == 'v2' and v2_unusable)])})
             continue
         if r < 0.35:
             ids = rng.sample(range(nslots), rng.randint(1, min(3, nslots)))
             st = {'op': 'put', 'slots': ids,
                   'spell': rng.choice(['abs', 'rel'])}
             if rng.random() < 0.15:
-                st['trash_dir'] = rng.choice(vols) + '/.Trash-%d' % L.uid
+                st['trash_dir'] = rng.choice(
+                    [v for v in vols if not (v == 'v2' and v2_unusable)]) + \
+                    '/.Trash-%d' % L.uid
+            elif v2_unusable and rng.random() < 0.6:
+                st['fb'] = True     # --home-fallback + TRASH_ENABLE_HOME_FALLBACK=1
             steps.append(st)
         elif r < 0.47:
             steps.append({'op': 'recreate', 'slot': rng.randrange(nslots)})
@@ -165,9 +182,40 @@ def disk_entries(w):
     return out
 
 
+def has_special(p):
+    import stat as _st
+    try:
+        m = os.lstat(p).st_mode
+    except OSError:
+        return False
+    if not (_st.S_ISREG(m) or _st.S_ISDIR(m) or _st.S_ISLNK(m)):
+        return True
+    if _st.S_ISDIR(m):
+        for d, dirs, files in os.walk(p):
+            for f in files:
+                m2 = os.lstat(os.path.join(d, f)).st_mode
+                if not (_st.S_ISREG(m2) or _st.S_ISLNK(m2)):
+                    return True
+    return False
+
+
+def same_sig(a, b, copied):
+    if a == b:
+        return True
+    if not copied or set(a) != set(b):
+        return False
+    # copied across volumes: symlinks arrive with a fresh mtime (C01 finding)
+    for k in a:
+        if a[k] != b[k] and not (a[k][0] == 'l' and b[k][0] == 'l' and
+                                 a[k][:6] == b[k][:6]):
+            return False
+    return True
+
+
 def run_case(case):
     res = run_history(case)
-    if res.get('violations') and not case.get('no_shrink'):
+    if res.get('violations') and not case.get('no_shrink') and \
+            res['violations'][0]['mechanism'] != 'fallback-copy-fault-leaves-orphan-payload':
         # greedy shrinking: drop steps one at a time while the same mechanism
         # keeps failing; the shortest failing history found is the witness
         mech = res['violations'][0]['mechanism'].split('/')[0]
@@ -196,6 +244,8 @@ def run_history(case):
     gen_no = {}
     removed_any = False
     put_any = False
+    tolerated = set()     # orphan payloads left by the known F12 finding
+    known = []
     with world.World(case) as w:
         slots = case['slots']
 
@@ -234,24 +284,55 @@ def run_history(case):
                 args = []
                 predicted = []
                 seen = set()
+                fb = bool(st.get('fb'))
+                f12_dirs = []
                 for i in st['slots']:
                     p = slot_path(i)
                     args.append(p if st['spell'] == 'abs' else os.path.relpath(p, cwd))
                     if os.path.lexists(p) and p not in seen:
                         seen.add(p)
                         exp, vol = spec.expected_trash_dirs(
-                            p, w.env(), w.uid, w.mounts,
+                            p, dict(w.env(), TRASH_ENABLE_HOME_FALLBACK='1')
+                            if fb else w.env(), w.uid, w.mounts,
                             trash_dir_opt=w.abs(st['trash_dir'])
-                            if st.get('trash_dir') else None)
+                            if st.get('trash_dir') else None, fallback=fb)
                         if exp:
+                            copied = spec.volume_of(os.path.realpath(exp[0]),
+                                                    w.mounts) != vol
+                            if copied and has_special(p):
+                                # the cross-device copy refuses special files:
+                                # the put fails, nothing is added (what it
+                                # leaves behind is the known F12 finding)
+                                f12_dirs.append(os.path.realpath(exp[0]))
+                                obs['fallback_puts_bound_to_fail'] = \
+                                    obs.get('fallback_puts_bound_to_fail', 0) + 1
+                                continue
+                            if copied:
+                                obs['fallback_puts_copied'] = \
+                                    obs.get('fallback_puts_copied', 0) + 1
                             predicted.append({
                                 'loc': spec.real_entry(p), 'date': clock,
                                 'trash': os.path.realpath(exp[0]),
+                                'copied': copied,
                                 'sig': snap.signature(p)})
                 topt = ['--trash-dir', w.abs(st['trash_dir'])] \
                     if st.get('trash_dir') else []
+                if fb:
+                    topt = ['--home-fallback'] + topt
+                before_orphans = set((t, n) for l, d, t, n, pay in disk_entries(w)
+                                     if l is None) if f12_dirs else set()
                 r = run.run(w, 'put', topt + ['--'] + args, stdin=b'', cwd=cwd,
-                            plan={'put_clock': clock.strftime(FMT)})
+                            plan={'put_clock': clock.strftime(FMT)},
+                            env={'TRASH_ENABLE_HOME_FALLBACK': '1'} if fb else None)
+                if f12_dirs:
+                    for l, d, t, n, pay in disk_entries(w):
+                        if l is None and (t, n) not in before_orphans and \
+                                os.path.realpath(t) in f12_dirs and r.exit != 0:
+                            tolerated.add((t, n))
+                            known.append({
+                                'mechanism': 'fallback-copy-fault-leaves-orphan-payload',
+                                'detail': {'step': hist, 'orphan': [t, n],
+                                           'cmd': r.brief()}})
                 for e in predicted:
                     model.entries.append(e)
                     obs['puts_added'] = obs.get('puts_added', 0) + 1
@@ -308,7 +389,7 @@ def run_history(case):
                         # whose payload is now at the destination
                         chosen = None
                         for e in cands:
-                            if snap.signature(p) == e['sig']:
+                            if same_sig(snap.signature(p), e['sig'], e.get('copied')):
                                 chosen = e
                                 break
                         if chosen is None:
@@ -375,7 +456,7 @@ def run_history(case):
                                'history': case['steps'][:k + 1]}})
                 break
             halves = [(t, name) for loc, d, t, name, pay in disk
-                      if loc is None or not pay]
+                      if (loc is None or not pay) and (t, name) not in tolerated]
             if halves:
                 out['violations'].append({
                     'mechanism': 'half-entry-on-disk/after-%s' % st['op'],
@@ -387,7 +468,8 @@ def run_history(case):
             for e in model.visible():
                 hit = [x for x in disk if x[0] == e['loc'] and
                        os.path.realpath(x[2]) == e['trash'] and
-                       snap.signature(os.path.join(x[2], 'files', x[3])) == e['sig']]
+                       same_sig(snap.signature(os.path.join(x[2], 'files', x[3])),
+                                e['sig'], e.get('copied'))]
                 if not hit:
                     out['violations'].append({
                         'mechanism': 'model-entry-not-on-disk-as-predicted/after-%s' % st['op'],
@@ -397,6 +479,9 @@ def run_history(case):
                     break
             if out['violations']:
                 break
+    if known and not out['violations']:
+        out['violations'].append(known[0])
+        obs['known_f12_orphans'] = len(known)
     out['nontrivial'] = put_any and removed_any
     out['sample_obs'] = {'steps': len(case['steps']),
                          'final_model_size': len(model.entries)}
